@@ -225,6 +225,10 @@ FindP(prog, ncap, h, at, longest) ==
 
 Find(re, h, at, longest) == FindP(Compile(re), NCaps(re), h, at, longest)
 
+\* the leftmost-first match that starts EXACTLY at p (anchored search), <<>> if none
+AnchoredP(prog, ncap, h, p) ==
+  LET r == Try(prog, h, 1, p, [NoCaps(ncap) EXCEPT ![1] = p], {}) IN IF r.ok THEN r.caps ELSE <<>>
+
 \* all e such that re matches h[p..e) exactly from p (anchored at p), any priority
 RECURSIVE EndsAcc(_,_,_,_,_)
 EndsAcc(prog, h, pc, p, seen) ==        \* returns the set of visited (pc,pos); ends = those at "match"
